@@ -56,7 +56,7 @@ func (e *histEngine) step(r *rng, k int) MalType {
 		}
 	}
 	lit := func() MalType { return 10 + r.intn(80) }
-	switch r.intn(23) {
+	switch r.intn(24) {
 	case 0, 1, 2:
 		return call1("conj", prev(), lit())
 	case 3:
@@ -124,6 +124,10 @@ func (e *histEngine) step(r *rng, k int) MalType {
 		default:
 			return call1("update-in", prev(), vc(kw("b"), r.intn(2)), ls(sy("fn"), vc(sy("x")), lit()))
 		}
+	case 22:
+		// a handler's variable named like an existing binding shadows it for the handler only
+		v := prev()
+		return ls(sy("try"), call1("throw", call1("list", lit(), v)), ls(sy("catch"), v, call1("count", v)))
 	default:
 		return call1("first", call1("list", prev(), prev()))
 	}
